@@ -15,6 +15,11 @@ CHECKS = {
    "Generated histories (valid blocks built from the model UTXO of a chosen parent incl. fork runs that win or lose, re-created commitments, in-block cut-through; single-defect negative blocks; reopen; compaction on a 90-block base chain; validate) are applied to a real Chain with real PoW. After every step get_unspent over every commitment ever created, the pmmr-index enumeration and validate_inputs / validate_tx probes are compared with the harness's replay model of the current head, and accept/reject of every block with the model's verdict. Sampled exploration; no exhaustiveness claimed.",
    "Oracle = harness replay model (spends remove, outputs insert, coinbase maturity, feature match). Blocks are rooted via Chain::set_txhashset_roots of the chain under test. Reorganisations after a compaction stay inside the horizon (generator precondition from the statement).",
    "DESIGN.md §5 C02"),
+ "C03": ("pbt", "exploration",
+   "proptest over fork trees and delivery permutations; reference max-work model over the set of connected delivered blocks; differential across permutations and vs. the winning chain alone",
+   "Generated fork trees (SKIP_POW with arbitrary difficulty increments incl. ties, and real PoW), headers first then bodies in several generated permutations with duplicates and children-before-parents. After every delivery: the set of stored blocks equals the model's connected set, head work equals the maximum over it, every head move seen through the adapter strictly increases work and every more-work block becomes head; at quiescence head, roots and full unspent scan agree across permutations and with a fresh chain fed only the winning branch. Sampled exploration.",
+   "Preconditions from the statement: headers known first, orphan capacity not exceeded. Tree blocks are built/rooted on a builder chain running the same code.",
+   "DESIGN.md §5 C03"),
 }
 
 NOT_YET = {}
